@@ -82,6 +82,7 @@ type CallObs struct {
 	RawTrailer   http.Header
 	PeekHeader   http.Header // ResponseHeader() read before the first Receive
 	Peeked       bool
+	SentReq      *connect.Request[Msg]
 	CancelStep   int
 	CancelTime   time.Time
 	StartTime    time.Time
@@ -105,8 +106,6 @@ type World struct {
 	poolStats poolStats
 
 	real *realNet // calibration world: real net/http instead of the stub
-
-	sentRequests map[string]*connect.Request[Msg]
 
 	buildingClient bool
 	faultAssigned  bool
@@ -752,7 +751,12 @@ func (w *World) runCall(t *core.Task, o *CallObs) {
 	ctx, cancel, cleanup := w.callCtx(o)
 	defer cleanup()
 	if p.CancelTask {
-		w.S.Go(p.ID+"/canceller", func(*core.Task) { cancel() })
+		w.S.Go(p.ID+"/canceller", func(*core.Task) {
+			if w.real != nil && p.CancelDelay > 0 {
+				time.Sleep(p.CancelDelay) // free-running world: no scheduler step to land on
+			}
+			cancel()
+		})
 	}
 	if p.CancelBefore {
 		w.opGate(o, "cancel")
@@ -767,15 +771,12 @@ func (w *World) runCall(t *core.Task, o *CallObs) {
 			body = p.ReqMsgs[0]
 		}
 		req := connect.NewRequest(mkMsg(body))
-		if prev := w.sentRequests[p.ReuseRequestOf]; p.ReuseRequestOf != "" && prev != nil {
-			req = prev // the caller re-sends the same Request object
+		if prev := w.byID[p.ReuseRequestOf]; p.ReuseRequestOf != "" && prev != nil && prev.SentReq != nil {
+			req = prev.SentReq // the caller re-sends the same Request object (same task, sequentially)
 		}
 		req.Header().Set(callHeader, p.ID)
 		merge(req.Header(), p.ReqHeader)
-		if w.sentRequests == nil {
-			w.sentRequests = map[string]*connect.Request[Msg]{}
-		}
-		w.sentRequests[p.ID] = req
+		o.SentReq = req
 		r := OpRec{Op: "unary", Start: stepsNow(w.S), StartT: time.Now()}
 		res, err := client.CallUnary(ctx, req)
 		r.Err = err
